@@ -16,6 +16,8 @@ Definition oz (n : node) : option Z := match n with Int z => Some z | _ => None 
 Definition mget (k : string) (n : node) : node :=
   match n with Map m => match map_get (lit k) m with Some v => v | None => Null end | _ => Null end.
 
+Definition mget_l (k : str) (m : list (str * node)) : node := match map_get k m with Some v => v | None => Null end.
+
 Definition res_node {A} (f : A -> node) (r : res A) : node :=
   match r with
   | Ok a => List [Str (lit "ok"); f a]
@@ -409,6 +411,31 @@ Definition eng_token (inp impl : node) : verdict :=
       let all_wf := forallb (fun o => is_err_obs o || fields_wf o) (nlist impl) in
       {| model_obs := List [fm; fm; fm; fm];
          violated := (if all_equal then [] else [lit "C07"]) ++ (if all_wf then [] else [lit "C10"]) |}
+  (* a constructor call: which principals are defined, the command, the nonce given (length, -1 = none),
+     two time bounds in seconds, the largest policy integer -> accepted (with the nonce length) or rejected *)
+  | List [Str op; Str ty; Map spec] =>
+      let g k := mget_l k spec in
+      let d (b : node) : did := if nbool b then (237, [237; 1; 7]) else did_undef in
+      let nl := nint (g (lit "nonce")) in
+      let given := if (nl <? 0)%Z then [] else repeat 1 (Z.to_nat nl) in
+      let r12 := repeat 2 12%nat in
+      let pol := [TCmp (lit "==") [] (Int (nint (g (lit "polmax"))))] in
+      let m := if str_eqb ty (lit "dlg")
+               then match dlg_new (d (g (lit "iss"))) (d (g (lit "other"))) None (nstr (g (lit "cmd"))) pol given r12 []
+                                  (oz (g (lit "t1"))) (oz (g (lit "t2"))) with
+                    | Ok t => List [Str (lit "ok"); Int (Z.of_nat (length (dk_nonce t)))]
+                    | _ => List [Str (lit "err")] end
+               else match inv_new (d (g (lit "iss"))) (d (g (lit "other"))) None (nstr (g (lit "cmd"))) [] [] given r12 []
+                                  (oz (g (lit "t2"))) (oz (g (lit "t1"))) None with
+                    | Ok t => List [Str (lit "ok"); Int (Z.of_nat (length (ik_nonce t)))]
+                    | _ => List [Str (lit "err")] end in
+      (* C10: nothing ill-formed comes out; C07: what comes out must be sealable, i.e. exactly the validated ones *)
+      let accepted := negb (is_err_obs impl) in
+      let c10_ok := negb accepted ||
+                    (nbool (g (lit "iss")) && nbool (g (lit "other")) &&
+                     match impl with List [_; Int l] => (12 <=? l)%Z | _ => false end) in
+      {| model_obs := m;
+         violated := (if c10_ok then [] else [lit "C10"]) ++ (if node_eqb impl m then [] else [lit "C07"]) |}
   (* an envelope node offered to the three decoders, with the facts about the issuer key *)
   | List [Str op; n; facts] =>
       let hdr := mget "hdr" facts in
